@@ -184,7 +184,11 @@ ProcessPacket(x, m) ==
 
 RECURSIVE DataReceived(_, _)
 DataReceived(x, ms) ==
-  IF ms = <<>> \/ x.cs = "closed" THEN x
+  IF ms = <<>> THEN x
+  ELSE IF x.cs = "closed" THEN
+       \* frames behind the closing frame are not dispatched; the Noise helper, closed by then, refuses them
+       \* with a protocol error, which becomes the connection's fatal cause if it has none yet
+       IF x.cfg.noise THEN [x EXCEPT !.fatal = IF @ = "none" THEN "ProtocolAPIError" ELSE @] ELSE x
   ELSE LET y == ProcessPacket(x, Head(ms)) IN
        IF Head(ms).k = "garbage" THEN y       \* the exception aborts the chunk
        ELSE DataReceived(y, Tail(ms))
